@@ -1,0 +1,46 @@
+//go:build verif
+
+// Verification hooks for package bep44 (compiled only with -tags verif; add-only file).
+// They expose state the correspondence harness needs to observe and let it age stored items
+// without sleeping; they do not change any behaviour of the package.
+package bep44
+
+import (
+	"bytes"
+	"sort"
+	"time"
+)
+
+// VerifAge makes every item of the memory store d older (shifts its creation time back by d).
+func VerifAge(m *Memory, d time.Duration) {
+	m.mu.Lock()
+	defer m.mu.Unlock()
+	for _, i := range m.m {
+		i.created = i.created.Add(-d)
+	}
+}
+
+// VerifEntry is one slot of the memory store.
+type VerifEntry struct {
+	Target  Target
+	Item    Item // copy of the stored item
+	Created time.Time
+}
+
+// VerifDump returns the content of the memory store sorted by target.
+func VerifDump(m *Memory) []VerifEntry {
+	m.mu.Lock()
+	defer m.mu.Unlock()
+	ret := make([]VerifEntry, 0, len(m.m))
+	for t, i := range m.m {
+		ret = append(ret, VerifEntry{Target: t, Item: *i, Created: i.created})
+	}
+	sort.Slice(ret, func(a, b int) bool { return bytes.Compare(ret[a].Target[:], ret[b].Target[:]) < 0 })
+	return ret
+}
+
+// VerifCreated returns the time stamp Wrapper.Put gave the item.
+func VerifCreated(i *Item) time.Time { return i.created }
+
+// VerifBufferToSign exposes the canonical buffer that is signed and verified.
+func VerifBufferToSign(salt, bv []byte, seq int64) []byte { return bufferToSign(salt, bv, seq) }
